@@ -111,6 +111,8 @@ def _unjkw(kw):
 
 
 def replay_case(case):
+    if case.get("kind") == "threads":
+        return replay_threads(case)
     if case.get("kind") == "namehist":
         a = engine.Acc()
         run_name_history(next(x for x in C.entries() if x.label == case["entry"]), a)  # (replays run in a fresh fork)
@@ -395,9 +397,73 @@ def run_config(acc, only=None):
         acc.violation("addressing_forms_disagree|config_poll|different_bytes", {"kind": "cfg", "n": 20}, "")
 
 
+def thread_ops():
+    """Constructions of messages with DIFFERENT class, length and content, one per route."""
+    from pyubx2 import SET, POLL, GET
+    return {
+        "kw": lambda: UBXMessage("CFG", "CFG-MSG", SET, msgClass=240, msgID=5, rateUART1=1, rateUSB=2).serialize().hex(),
+        "payload": lambda: UBXMessage(b"\x04", b"\x02", GET, payload=bytes(range(33, 33 + 24))).serialize().hex(),
+        "config": lambda: UBXMessage.config_set(1, 0, [("CFG_UART1_BAUDRATE", 115200)]).serialize().hex(),
+        "poll": lambda: UBXMessage("NAV", "NAV-PVT", POLL).serialize().hex(),
+        "parse": lambda: UBXReader.parse(ref.frame(0x05, 0x01, b"\x06\x01"), msgmode=GET).serialize().hex(),
+    }
+
+
+def _alone(f):
+    try:
+        return ("ok", f())
+    except Exception as e:  # noqa: BLE001
+        return ("exc", type(e).__name__, str(e))
+
+
+def thread_verdicts(names, res, want):
+    out = []
+    for i, (got, w) in enumerate(zip(res, want)):
+        site = f"{names[i]}|with={names[1 - i]}"
+        if got[0] == "ok" and not ref.wellformed(bytes.fromhex(got[1])):
+            out.append((f"frame_not_well_formed_when_built_concurrently|{site}", f"{got[1][:80]}"))
+        elif got != w:
+            out.append((f"frame_differs_when_built_concurrently|{site}", f"{got!r:.120} vs alone {w!r:.120}"))
+    return out
+
+
+def explore_threads(names, first, acc):
+    """Two constructions as real threads under the cooperative scheduler (line events inside pyubx2 are the
+    scheduling points), every schedule with at most one preemption: each serialize() must be a well-formed frame,
+    the one the same construction gives alone."""
+    from mc import threads
+    ops = thread_ops()
+    fns = [ops[n] for n in names]
+    want = [_alone(f) for f in fns]
+
+    def run(ch):
+        return threads.Scheduler(fns, ch, 1).run()
+
+    def on_exec(ch, res):
+        acc.evaluations += 1
+        for key, detail in thread_verdicts(names, res, want):
+            acc.violation(key, {"kind": "threads", "program": list(names), "first": first, "choices": list(ch.choices)}, detail)
+
+    st = engine.explore(run, bound=1, merge=False, on_exec=on_exec, root_prefix=[first])
+    acc.transitions += st["points"]
+    acc.outcomes[("threads", "+".join(names), "built" if not st["capped"] else "capped")] += 1
+
+
+def replay_threads(case):
+    from mc import threads
+    ops = thread_ops()
+    fns = [ops[n] for n in case["program"]]
+    want = [_alone(f) for f in fns]
+    res = threads.Scheduler(fns, engine.Chooser(case["choices"], None), 1).run()
+    return thread_verdicts(case["program"], res, want)
+
+
 def eval_block(block, acc):
     ents = C.entries()
     kind = block[0]
+    if kind == "threads":
+        explore_threads(block[1], block[2], acc)
+        return
     quick = block[-1]
     if kind == "entries":
         for i in block[1]:
@@ -431,6 +497,10 @@ def run_tier(tier, t0):
     blocks += [("payload", cid.hex(), q) for cid in FS.known_clsids()]
     blocks += [("nokw", q), ("config", q), ("extreme", q)]
     blocks += [("namehist", i, 8, q) for i in range(8)]
+    import itertools
+    for a, b in itertools.combinations_with_replacement(sorted(thread_ops()), 2):
+        for first in (0, 1):
+            blocks.append(("threads", [a, b], first))
     acc = engine.sweep(blocks, eval_block)
     nr = sum(1 for e in ents if e.routed and not C.invalid_types(e.pdict))
     engine.finish(
@@ -441,7 +511,7 @@ def run_tier(tier, t0):
             + " x its modes; no-keyword form of every message ID x 3 modes; unknown class/IDs; payload lengths 251..131,072 (256-byte block boundaries of the checksummed content; at and beyond the 2-byte length field); config_set/del/poll with 0..64 keys by name and by ID; every construction attempted by bytes, ints and names. "
             "states = definitions covered; transitions = frames checked against the independent framing oracle; distinct_nontrivial = (route, mode, built/refused) classes"
         ),
-        assumptions=["independent Fletcher/framing in mc/refmodel/core.py", "the names form is compared where the message ID has a unique name (O11)"],
+        assumptions=["independent Fletcher/framing in mc/refmodel/core.py", "thread ring: all 15 unordered pairs of 5 constructions (keywords, payload, config helper, poll, parse) as two real threads under the cooperative line-event scheduler, every schedule with <= 1 preemption: each frame well-formed and equal to the one built alone", "the names form is compared where the message ID has a unique name (O11)"],
         vacuity=[(f"all {nr} routed definitions covered", len(acc.states) == nr), ("all three routes built frames", {"keywords", "payload", "no_keywords"} <= {k[0] for k in acc.outcomes if k[2] == "built"})],
     )
 
